@@ -19,6 +19,11 @@ def world(d, kind):
         os.utime(os.path.join(d, "f"), ns=(1_500_000_000_000_000_000, 1_500_000_000_123_456_789))
         os.setxattr(os.path.join(d, "f"), "user.k", b"v")
         return ["f", "g"], [("f", "g")]
+    if kind == "bigfile":
+        # one block far larger than any buffer the user-space fall-back might think of as `big enough`
+        w("f", bytes((i * 7 + i // 251) % 256 for i in range(1000)) * 417)
+        os.chmod(os.path.join(d, "f"), 0o600)
+        return ["f", "g"], [("f", "g")]
     if kind == "overwrite-backup":
         os.mkdir(os.path.join(d, "dst"))
         w("f", b"new " * 3000)
@@ -119,7 +124,7 @@ def run(ctx, out):
     quick = ctx.tier == "quick"
     sup = core.build_sup()
     out.rule = ("for small copies (single file with mode/mtime/xattr, overwrite with numbered backup, tree with nested dirs, link, "
-                "FIFO, three files selected by a --glob pattern spanning three directories) and both drivers, with --block-size 16KB and (file, tree) with --no-progress -v: a reference trace, then one run per (system call touching the sandbox) x errno from {EIO "
+                "FIFO, three files selected by a --glob pattern spanning three directories, one 417 KB file copied as ONE block) and both drivers, with --block-size 16KB and (file, tree) with --no-progress -v: a reference trace, then one run per (system call touching the sandbox) x errno from {EIO "
                 "ENOSPC EACCES EMFILE EROFS EEXIST EPERM}, keyed by (syscall, path, n-th occurrence); exit 0 must imply a complete "
                 "and correct destination incl. mode/mtime; thorough adds random pairs of faults. non-trivial = the injection "
                 "fired; distinct = (case, driver, call, errno)")
@@ -128,7 +133,8 @@ def run(ctx, out):
     # option sets: the failure must surface whichever way the configuration routes it (with a progress bar the block
     # size is 16 KB and errors of block jobs travel over the update channel; --no-progress = one block per file, no bar)
     for (kind, optset) in [("file", "std"), ("overwrite-backup", "std"), ("tree", "std"), ("sparse", "std"),
-                           ("file", "noprogress"), ("tree", "noprogress"), ("glob", "std")]:
+                           ("file", "noprogress"), ("tree", "noprogress"), ("glob", "std"),
+                           ("bigfile", "noprogress")]:
         for driver in ("parfile", "parblock"):
             d = os.path.join(d0, "%s_%s_%s" % (kind, driver, optset))
             if optset != "std" and quick and (kind, driver) == ("tree", "parfile"):
@@ -139,7 +145,7 @@ def run(ctx, out):
                 os.makedirs(d)
                 return world(d, kind)
             tail, pairs = setup()
-            destroot = os.path.join(d, "dst") if kind != "file" else os.path.join(d, "g")
+            destroot = os.path.join(d, "dst") if kind not in ("file", "bigfile") else os.path.join(d, "g")
             argv = [ctx.bins["xcp"], "--driver", driver, "-w", "2"] + (["--block-size", "16KB"] if optset == "std" else ["--no-progress", "-v"]) + \
                 ["--fsync", "--reflink", "never"] + tail
             out.count("options_" + optset)
@@ -171,6 +177,8 @@ def run(ctx, out):
                     sharp = "EACCES"
                 if sharp:
                     errs = sorted(set(errs + [sharp]))
+                if e["sys"] == "copy_file_range":
+                    errs = sorted(set(errs + ["EPERM"]))     # `not available here`: the user-space fall-back copies this block
                 if e["sys"] == "openat" and not (e["a"][2] & (os.O_CREAT | os.O_DIRECTORY)):
                     # a source file that "is not there" at the moment it is opened (it was there when the tree was walked)
                     errs = sorted(set(errs + ["ENOENT"]))
